@@ -184,9 +184,11 @@ func (g *gen) errSpec() *ErrSpec {
 	return e
 }
 
+// id: a fresh panic payload; ids are distinct within a case and spread over the residues that decide
+// the kind of the panic value (boom: string / error / runtime error, one in eight nil).
 func (g *gen) id() int {
 	g.nextI++
-	return g.nextI
+	return g.nextI*8 + g.r.Intn(8)
 }
 
 func (engine) Generate(r *lib.Rng, tier string, i int) any {
@@ -323,6 +325,28 @@ func (engine) Generate(r *lib.Rng, tier string, i int) any {
 	// the step limit given as a call option: below / at / above what the top graph needs
 	if !c.G.Dag && !c.G.WF && r.Chance(8, 100) {
 		c.RtMax = r.Range(1, len(c.G.Stages)+2)
+	}
+	// a fifth of the cases call the compiled runnable a second time
+	c.Twice = r.Chance(20, 100)
+	// where the fault sits in a faulty stream
+	var place func(gr *Graph)
+	place = func(gr *Graph) {
+		for _, st := range gr.Stages {
+			for _, n := range st {
+				switch {
+				case n.Kind == "sub":
+					place(n.Sub)
+				case n.Beh == "item":
+					n.Pos = g.weighted(55, 30, 15)
+				case n.Beh == "convpanic":
+					n.Pos = g.weighted(65, 35)
+				}
+			}
+		}
+	}
+	place(c.G)
+	if c.InErr != nil {
+		c.InPos = g.weighted(55, 30, 15)
 	}
 	return c
 }
